@@ -326,6 +326,70 @@ def rule_real_readback(ctx, rule):
     return decided
 
 
+def rule_ratio_readback(ctx, rule):
+    """exact ratios of both signs, in lowest terms and not (arithmetic does not reduce its results: (- 1/4 3/4) is -8/16): the printed
+    text, read by the crate's reader and turned into a value by the interpreter's own literal conversion, is an exact number of the
+    same value"""
+    from . import readtables
+    from .ctx import where_of
+    from fractions import Fraction
+    fb = ctx.fb()
+    vf = fb.find("<values::Value as std::fmt::Display>::fmt")
+    m = Mk(fb)
+    num = dict((n, i) for i, n in fb.variants("values::Number"))
+    decided = 0
+    for n in (-32, -8, -6, -3, -2, -1, 1, 2, 3, 6, 8, 32):
+        for d in (2, 3, 4, 16):
+            key = "ratio/%d/%d" % (n, d)
+            t = print_value(fb, m.number("Rational", n, d))
+            if isinstance(t, tuple):
+                ctx.undecided(rule, key, "cannot follow the printer on the ratio %d/%d (%s)" % (n, d, t[1]), where_of(vf))
+                continue
+            txt, holes = fill(t)
+            if holes:
+                ctx.undecided(rule, key, "the printed text of the ratio %d/%d has parts that are not known text (%r)" % (n, d, t), where_of(vf))
+                continue
+            r = readtables.literal_value(fb, txt)
+            if r[0] == "stuck":
+                ctx.undecided(rule, key, "cannot follow the reader / the literal conversion on the printed text %r (%s)" % (txt, r[1]), where_of(vf))
+                continue
+            decided += 1
+            why = None
+            if r[0] != "value":
+                why = "%s (%s)" % ("an error" if r[0] == "error" else "a crash", r[1])
+            else:
+                nums = [x for x in _find(r[1], "Number")]
+                nv = nums[0].fields[0] if nums and nums[0].fields else None
+                back = None
+                if isinstance(nv, Enum) and nv.variant == num.get("Integer") and isinstance(nv.fields[0], int):
+                    back = Fraction(nv.fields[0])
+                elif isinstance(nv, Enum) and nv.variant == num.get("Rational") and all(isinstance(x, int) and not isinstance(x, bool) for x in nv.fields[:2]):
+                    back = Fraction(nv.fields[0], nv.fields[1]) if nv.fields[1] != 0 else "a ratio with denominator 0"
+                    if isinstance(back, Fraction) and nv.fields[1] < 0:
+                        back = "the ratio %d/%d, stored with a negative denominator" % (nv.fields[0], nv.fields[1])
+                if back is None:
+                    why = "%r, which is not an exact number" % (r[1],)
+                elif back != Fraction(n, d):
+                    why = "%s, another number" % (back,)
+            good = why is None
+            ctx.inst(rule, key, {"printed": txt, "reads_back": good})
+            ctx.oblige(good)
+            if not good:
+                ctx.report(rule, key, "the exact ratio %d/%d is printed as %r; read back as a literal that is %s" % (n, d, txt, why), where_of(vf))
+    return decided
+
+
+def _find(v, name, depth=8):
+    if isinstance(v, Enum) and depth >= 0:
+        if getattr(v, "name", None) == name:
+            yield v
+        for x in v.fields:
+            yield from _find(x, name, depth - 1)
+    elif isinstance(v, list) and depth >= 0:
+        for x in v:
+            yield from _find(x, name, depth - 1)
+
+
 # ------------------------------------------------------------------------------------------------ values do not print where they were typed
 
 def rule_position_free(ctx, rule):
